@@ -273,6 +273,7 @@ def run_scheme(ci, rel, cls, cfg):
     it.call_function(A.FuncRef(f[0], f[2], self_obj=obj, cls=f[1]), [particles], {'clean': A.Sym('clean')}, f[2])
     for pa in particles:
         res['arrays'][pa.attrs['name']] = pa
+    res['type_conflicts'] = [(pa.attrs['name'],) + tc for pa in particles for tc in pa.attrs.get('type_conflicts', [])]
     for inst in res['equations'] + [s for r, s in res['steppers']]:
         bad = check_constructor(it, inst)
         if bad:
@@ -412,6 +413,10 @@ def main(chk):
                         if k not in missing:
                             missing[k] = [describe(cfg), node, r2, 0, '']
                         missing[k][3] += 1
+                for aname, pname, have, asked, node_, rel_ in res.get('type_conflicts', []):
+                    ctor.setdefault((cls.name, 'setup_properties asks for property `%s` of type %s on the %s array, which already has it as %s (from the property list the scheme starts from): '
+                                     'add_property keeps the existing array, so the equations that declare an %s for it (idx = declare(\'int\'); idx = d_%s[d_idx]) do not compile' % (
+                                         pname, asked, aname, have, asked, pname)), (describe(cfg), node_, rel_ or rel))
                 if res.get('extra_mutated'):
                     f_ = res['it'].find_method(A.ClassRef(rel, cls), 'configure_solver')
                     ctor.setdefault((cls.name, 'configure_solver writes its own steppers into the caller\'s extra_steppers dict (it holds %s afterwards): the next scheme configured with the same '
